@@ -29,3 +29,8 @@ const (
 	// initialArrayCapacity is the initial capacity to read an array.
 	initialArrayCapacity = 1024
 )
+
+const (
+	// maxArrayDepth is the maximum nesting depth of arrays in a message.
+	maxArrayDepth = 128
+)
